@@ -56,17 +56,17 @@ RECURSIVE PathOf(_, _)
 PathOf(d, x) == IF d[x].par = 0 THEN <<>> ELSE Append(PathOf(d, d[x].par), StepOf(d, x))
 
 FirstIn(S) == CHOOSE a \in S : \A b \in S : a <= b
-ChildAt(d, i, st) ==
+\* A key step carries the TEXT of a hash key or set member, as the code builds it (escape_path_section of
+\* str(key)): the keys 0 and "0" of one hash give the same step, so a step designates a SET of positions.
+ChildrenAt(d, i, st) ==
   LET n == d[i] IN
-  IF n.k = "map" /\ st.i = -1 THEN
-    (LET js == {j \in 1..Len(n.keys) : n.keys[j].v = st.s} IN IF js = {} THEN 0 ELSE n.kids[FirstIn(js)])
-  ELSE IF n.k = "seq" /\ st.i >= 0 THEN (IF st.i < Len(n.kids) THEN n.kids[st.i + 1] ELSE 0)
-  ELSE IF n.k = "set" /\ st.i = -1 THEN
-    (LET js == {j \in 1..Len(n.kids) : d[n.kids[j]].v = st.s} IN IF js = {} THEN 0 ELSE n.kids[FirstIn(js)])
-  ELSE 0
+  IF n.k = "map" /\ st.i = -1 THEN {n.kids[j] : j \in {x \in 1..Len(n.keys) : n.keys[x].v = st.s}}
+  ELSE IF n.k = "seq" /\ st.i >= 0 THEN (IF st.i < Len(n.kids) THEN {n.kids[st.i + 1]} ELSE {})
+  ELSE IF n.k = "set" /\ st.i = -1 THEN {n.kids[j] : j \in {x \in 1..Len(n.kids) : d[n.kids[x]].v = st.s}}
+  ELSE {}
 RECURSIVE ResolveFrom(_, _, _, _)
-ResolveFrom(d, i, p, k) == IF i = 0 THEN 0 ELSE IF k > Len(p) THEN i ELSE ResolveFrom(d, ChildAt(d, i, p[k]), p, k + 1)
-Resolve(d, p) == ResolveFrom(d, Root, p, 1)         \* position the path designates, 0 when there is none
+ResolveFrom(d, S, p, k) == IF k > Len(p) \/ S = {} THEN S ELSE ResolveFrom(d, UNION {ChildrenAt(d, i, p[k]) : i \in S}, p, k + 1)
+Resolve(d, p) == ResolveFrom(d, {Root}, p, 1)       \* the positions the path designates ({} when there is none)
 IsPrefixOf(p, q) == Len(p) <= Len(q) /\ \A k \in 1..Len(p) : p[k] = q[k]
 
 (* ---- sub-tables (ids are pre-order numbers, so a subtree is a contiguous range) ---- *)
@@ -147,7 +147,7 @@ Expect(cfg, l, r) ==
 (* ---- the statement's predicates over valued entries [a, p, lv, rv] ---- *)
 LeftKind(e) == e.a \in {"SAME", "CHANGE", "DELETE"}
 RightKind(e) == e.a \in {"SAME", "CHANGE", "ADD"}
-Holds(d, p, val) == LET i == Resolve(d, p) IN i # 0 /\ SameTab(SubTab(d, i), val)
+Holds(d, p, val) == \E i \in Resolve(d, p) : SameTab(SubTab(d, i), val)
 Truthful(e, l, r) ==
   /\ LeftKind(e) => Holds(l, e.p, e.lv)
   /\ RightKind(e) => Holds(r, e.p, e.rv)
